@@ -35,6 +35,7 @@ def run(tier, seed, replay):
     bindir = vcommon.cargo_build("genrun", bins=["c30"])
     exe = os.path.join(bindir, "c30")
     scratch = vcommon.scratch_dir("c30")
+    t0 = os.times()
     try:
         env = vcommon.base_env()
         if replay is not None:
@@ -65,6 +66,8 @@ def run(tier, seed, replay):
                            "violations": sub.violations, "inconclusive": sub.inconclusive, "extra": sub.extra,
                            "assumptions": sub.assumptions})
         rep.assumptions += ["MoonBit package references are exactly the `@alias.` tokens outside comments, string and char literals"]
+        t1 = os.times()
+        rep.extra["children_cpu_s"] = round((t1.children_user - t0.children_user) + (t1.children_system - t0.children_system), 1)
         return rep
     finally:
         vcommon.rm_scratch(scratch)
